@@ -18,6 +18,7 @@ import (
 	"time"
 
 	"github.com/criyle/go-sandbox/container"
+	"github.com/criyle/go-sandbox/pkg/forkexec"
 	"github.com/criyle/go-sandbox/pkg/mount"
 	"github.com/criyle/go-sandbox/pkg/seccomp/libseccomp"
 	"github.com/criyle/go-sandbox/runner"
@@ -345,7 +346,7 @@ func TestC12Trees(t *testing.T) {
 // ---- histories -------------------------------------------------------------------------------------------------------
 
 type c12Action struct {
-	Kind   string // ptrace unshare build destroy execve open symlink delete reset failing-build ping
+	Kind   string // ptrace unshare build destroy execve open symlink delete reset failing-build ping userns-fail (a user-namespace launch whose id map the kernel rejects)
 	Env    int
 	Target string // execve: ok fail-before fail-after-sync cancel sync-fail
 	Keep   bool   // open: keep the returned files for a while
@@ -365,7 +366,7 @@ func c12Measure() c12Counters {
 
 func TestC12History(t *testing.T) {
 	rec := vh.NewRecorder(t, "C12", "exploration",
-		"history part: 5..30 actions over up to 3 environments in one host process: ptrace run, namespace run, Build, failing Build (bad mount), Destroy, Execve (ok / failing before fork / failing after the sync / cancelled / failing callback; trivial program or a process tree), Open (results closed or kept for a while), Symlink, Delete, Reset, Ping; after every action (settle loop <= 2 s with two forced GCs): open descriptors, goroutines and child processes of the host process equal the baseline plus a per-live-environment constant measured at the first Build plus the files the test still holds; descriptors and children of every live container init equal their post-Build baseline; nothing tagged survives; non-trivial = >= 1 failing or cancelled action and >= 1 environment destroyed")
+		"history part: 5..30 actions over up to 3 environments in one host process: ptrace run, namespace run, Build, failing Build (bad mount), Destroy, Execve (ok / failing before fork / failing after the sync / cancelled / failing callback; trivial program or a process tree), Open (files, missing paths, directories and a planted FIFO; results closed or kept for a while), a user-namespace launch whose uid/gid map the kernel rejects, Symlink, Delete, Reset, Ping; after every action (settle loop <= 2 s with two forced GCs): open descriptors, goroutines and child processes of the host process equal the baseline plus a per-live-environment constant measured at the first Build plus the files the test still holds; descriptors and children of every live container init equal their post-Build baseline; nothing tagged survives; non-trivial = >= 1 failing or cancelled action and >= 1 environment destroyed")
 	dir, err := vh.ScratchDir("c12")
 	if err != nil {
 		t.Fatalf("INFRA: %v", err)
@@ -409,7 +410,7 @@ func TestC12History(t *testing.T) {
 		var c c12HCase
 		n := rapid.IntRange(5, 30).Draw(rt, "n")
 		for i := 0; i < n; i++ {
-			a := c12Action{Kind: rapid.SampledFrom([]string{"ptrace", "unshare", "build", "build", "destroy", "execve", "execve", "execve", "open", "symlink", "delete", "reset", "failing-build", "ping"}).Draw(rt, "kind"),
+			a := c12Action{Kind: rapid.SampledFrom([]string{"ptrace", "unshare", "build", "build", "destroy", "execve", "execve", "execve", "open", "open", "symlink", "delete", "reset", "failing-build", "ping", "userns-fail"}).Draw(rt, "kind"),
 				Env: rapid.IntRange(0, 2).Draw(rt, "env"), Target: rapid.SampledFrom([]string{"ok", "ok", "fail-before", "fail-after-sync", "cancel", "sync-fail"}).Draw(rt, "target"),
 				Keep: rapid.Bool().Draw(rt, "keep"), Tree: rapid.IntRange(0, 2).Draw(rt, "tree") == 0}
 			c.Actions = append(c.Actions, a)
@@ -541,7 +542,29 @@ func TestC12History(t *testing.T) {
 				if l == nil {
 					continue
 				}
-				res, err := l.env.Open([]container.OpenCmd{{Path: "/w/o1", Flag: os.O_RDWR | os.O_CREATE, Perm: 0o644}, {Path: "/w/missing/x", Flag: os.O_RDONLY}, {Path: "/w/o2", Flag: os.O_RDWR | os.O_CREATE, Perm: 0o644}})
+				// besides files: targets that exist but are no regular files (directories, a FIFO somebody planted where an output
+				// file was expected): refused, and nothing of the refusal may stay behind in the init
+				fifo := fmt.Sprintf("/proc/%d/root/w/planted-fifo", l.init)
+				if _, err := os.Lstat(fifo); err != nil {
+					syscall.Mkfifo(fifo, 0o644)
+				}
+				openDone := make(chan struct{})
+				var res []container.OpenCmdResult
+				var err error
+				go func() {
+					res, err = l.env.Open([]container.OpenCmd{{Path: "/w/o1", Flag: os.O_RDWR | os.O_CREATE, Perm: 0o644}, {Path: "/w/missing/x", Flag: os.O_RDONLY},
+						{Path: "/w", Flag: os.O_RDONLY}, {Path: "/tmp", Flag: os.O_RDONLY}, {Path: "/w/planted-fifo", Flag: os.O_RDONLY}, {Path: "/w/planted-fifo", Flag: os.O_RDWR},
+						{Path: "/w/o2", Flag: os.O_RDWR | os.O_CREATE, Perm: 0o644}})
+					close(openDone)
+				}()
+				select {
+				case <-openDone:
+				case <-time.After(10 * time.Second):
+					if f, e := os.OpenFile(fifo, os.O_WRONLY|syscall.O_NONBLOCK, 0); e == nil {
+						f.Close()
+					}
+					return vh.Violf("C12:run-never-returns", "%s: Open with directory / FIFO targets did not return in 10 s", desc)
+				}
 				if err != nil {
 					return vh.Violf("C12:env-broken", "%s: Open: %v", desc, err)
 				}
@@ -553,6 +576,24 @@ func TestC12History(t *testing.T) {
 							r.File.Close()
 						}
 					}
+				}
+				failing++
+			case "userns-fail":
+				dn := devNullFile()
+				r := &forkexec.Runner{Args: []string{"/bin/true"}, Env: []string{"A=1"}, Files: []uintptr{dn.Fd(), dn.Fd(), dn.Fd()}, CloneFlags: syscall.CLONE_NEWUSER,
+					UIDMappings: []syscall.SysProcIDMap{{ContainerID: 0, HostID: 0, Size: 1}}, GIDMappings: []syscall.SysProcIDMap{{ContainerID: 0, HostID: 0, Size: 1}}, GIDMappingsEnableSetgroups: true}
+				bad := []syscall.SysProcIDMap{{ContainerID: 0, HostID: 0, Size: 10}, {ContainerID: 5, HostID: 100000, Size: 10}} // overlapping: rejected when written
+				if a.Keep {
+					r.GIDMappings = bad
+				} else {
+					r.UIDMappings = bad
+				}
+				pid, err := r.Start()
+				if err == nil {
+					syscall.Kill(pid, syscall.SIGKILL)
+					var ws syscall.WaitStatus
+					syscall.Wait4(pid, &ws, 0, nil)
+					return vh.Infraf("%s: an overlapping id map was accepted", desc)
 				}
 				failing++
 			case "symlink":
